@@ -95,6 +95,7 @@ static int gw_choice_fixed(const gw_edge *e) { return -1; }
 static long base_out;
 static void gw_begin(void) {
     base_out = vp_outstanding;
+    dtor_bad = 0;
     for (int b = 0; b <= NB; b++) { memset(&B[b], 0, sizeof B[b]); if (b > nblocks) B[b].created = -1; }
 }
 static void gw_step(const gw_edge *e, char *obs, char *proj, size_t n) {
@@ -115,6 +116,7 @@ static int gw_end(char *msg, size_t n) {
     long left = vp_outstanding - base_out;
     vp_outstanding = base_out;
     if (left) { snprintf(msg, n, "allocator ledger: %ld blocks outstanding after all references were dropped", left); return 1; }
+    if (dtor_bad) { snprintf(msg, n, "a destructor saw an invalid block (content or size) during teardown"); dtor_bad = 0; return 1; }
     return 0;
 }
 
